@@ -236,6 +236,9 @@ void list_output_86000(
     }
 
     start += count;
+
+    // One instruction per line when the range holds several.
+    if (start < end) { fprintf(asm_context->list, "\n"); }
   }
 }
 
